@@ -17,6 +17,7 @@ package state
 import (
 	"bytes"
 	"encoding/json"
+	"errors"
 	"fmt"
 	"io"
 	"sort"
@@ -27,6 +28,7 @@ import (
 	"github.com/ChainSafe/gossamer/internal/database"
 	"github.com/ChainSafe/gossamer/internal/log"
 	kit "github.com/ChainSafe/gossamer/internal/verifkit"
+	"github.com/ChainSafe/gossamer/lib/blocktree"
 	"github.com/ChainSafe/gossamer/lib/common"
 	"github.com/ChainSafe/gossamer/lib/crypto/ed25519"
 	"github.com/ChainSafe/gossamer/lib/genesis"
@@ -58,7 +60,8 @@ type c36Blk struct {
 	header *types.Header
 	body   types.Body
 	state  kit.OrdMap
-	change int // 0 none, 1 scheduled, 2 forced
+	puts   []c36Change // state changes relative to the parent
+	change int         // 0 none, 1 scheduled, 2 forced
 	delay  int
 	epoch  bool // carries a NextEpochData digest
 }
@@ -274,6 +277,40 @@ type c36Change struct {
 	v   []byte
 }
 
+// c36HandleDigests does what dot/core.handleBlock does after AddBlock: dot/digest
+// BlockImportHandler.HandleDigests (every consensus digest of the header is decoded again and handed to
+// GrandpaState / EpochState), then GrandpaState.ApplyForcedChanges unless the digests failed.
+func c36HandleDigests(t c36Fataler, svc *Service, header *types.Header) (digestErr, forcedErr error) {
+	for _, item := range header.Digest {
+		v, err := item.Value()
+		if err != nil {
+			t.Fatalf("digest item: %v", err)
+		}
+		cd, ok := v.(types.ConsensusDigest)
+		if !ok {
+			continue
+		}
+		switch cd.ConsensusEngineID {
+		case types.GrandpaEngineID:
+			data := types.NewGrandpaConsensusDigest()
+			if err := scale.Unmarshal(cd.Data, &data); err != nil {
+				t.Fatalf("decode grandpa digest: %v", err)
+			}
+			digestErr = svc.Grandpa.HandleGRANDPADigest(header, data)
+		case types.BabeEngineID:
+			data := types.NewBabeConsensusDigest()
+			if err := scale.Unmarshal(cd.Data, &data); err != nil {
+				t.Fatalf("decode babe digest: %v", err)
+			}
+			digestErr = svc.Epoch.HandleBABEDigest(header, data)
+		}
+		if digestErr != nil {
+			return digestErr, nil
+		}
+	}
+	return nil, svc.Grandpa.ApplyForcedChanges(header)
+}
+
 // importBlock mirrors dot/core.Service.handleBlock.
 func (s *c36Scenario) importBlock(t c36Fataler, parent int, changes []c36Change, change, delay int, epoch bool, nExt int) {
 	p := s.blocks[parent]
@@ -367,42 +404,14 @@ func (s *c36Scenario) importBlock(t c36Fataler, parent int, changes []c36Change,
 		t.Fatalf("live service: AddBlock(child of b%d): %v", parent, err)
 	}
 	s.blocks = append(s.blocks, c36Blk{parent: parent, number: number, hash: header.Hash(), header: header,
-		body: block.Body, state: st, change: change, delay: delay, epoch: epoch})
+		body: block.Body, state: st, puts: changes, change: change, delay: delay, epoch: epoch})
 
-	// dot/digest BlockImportHandler.HandleDigests: decode every consensus digest of the header again
-	var digestErr error
-	for _, item := range header.Digest {
-		v, err := item.Value()
-		if err != nil {
-			t.Fatalf("digest item: %v", err)
-		}
-		cd, ok := v.(types.ConsensusDigest)
-		if !ok {
-			continue
-		}
-		switch cd.ConsensusEngineID {
-		case types.GrandpaEngineID:
-			data := types.NewGrandpaConsensusDigest()
-			if err := scale.Unmarshal(cd.Data, &data); err != nil {
-				t.Fatalf("decode grandpa digest: %v", err)
-			}
-			digestErr = s.svc.Grandpa.HandleGRANDPADigest(header, data)
-		case types.BabeEngineID:
-			data := types.NewBabeConsensusDigest()
-			if err := scale.Unmarshal(cd.Data, &data); err != nil {
-				t.Fatalf("decode babe digest: %v", err)
-			}
-			digestErr = s.svc.Epoch.HandleBABEDigest(header, data)
-		}
-		if digestErr != nil {
-			break
-		}
-	}
+	digestErr, forcedErr := c36HandleDigests(t, s.svc, header)
 	if digestErr != nil {
 		// handleBlock returns the error; the block stays in the block tree. Not a crash matter.
 		s.labels["scenario:import-digest-error:"+c36ErrClass(digestErr)] = true
-	} else if err = s.svc.Grandpa.ApplyForcedChanges(header); err != nil {
-		s.labels["scenario:apply-forced-error:"+c36ErrClass(err)] = true
+	} else if forcedErr != nil {
+		s.labels["scenario:apply-forced-error:"+c36ErrClass(forcedErr)] = true
 	}
 	op.descr = fmt.Sprintf("import b%d(#%d<-b%d", idx, number, parent)
 	for _, c := range changes {
@@ -507,43 +516,99 @@ func c36After(setA, roundA, setB, roundB uint64) bool { // (setA, roundA) >= (se
 	return roundA >= roundB
 }
 
-// c36Restart restarts a node state service from db the way dot/node does
-// (NewService + SetupBase + Start; here the database is handed over directly)
-// and judges what it finds. It returns "" or the violation.
-func (s *c36Scenario) restartAndJudge(db database.Database, i int) (msg string) {
+// c36HeadOpt is one finalised head the model accepts after a restart.
+type c36HeadOpt struct {
+	block        int
+	round, setID uint64
+	anyRound     bool // only the block is prescribed (finalisations re-issued after a restart choose their own round)
+	why          string
+}
+
+// c36Want is what a restart must find.
+type c36Want struct {
+	heads            []c36HeadOpt
+	minSet, minRound uint64 // finalised (set id, round) must not be older than this
+	minCur, maxCur   uint64 // bounds of the current GRANDPA set id
+	exactAuths       bool   // the authority list of a set id must be the one the scenario enacted it with
+}
+
+// c36Seen is what a restart found.
+type c36Seen struct {
+	head         int
+	round, setID uint64
+	cur          uint64
+}
+
+// wantAfterCrash: the restart on the database reduced to the first i write units.
+func (s *c36Scenario) wantAfterCrash(i int) c36Want {
+	e := s.expectAt(i)
+	w := c36Want{minCur: e.minSetID, maxCur: e.maxSetID, exactAuths: true}
+	h := c36HeadOpt{block: 0, why: "genesis (no finalisation was complete before the crash)"}
+	if e.lastFinal != nil {
+		h = c36HeadOpt{block: e.lastFinal.block, round: e.lastFinal.round, setID: e.lastFinal.setID,
+			why: "the last finalisation completed before the crash"}
+	}
+	w.minSet, w.minRound = h.setID, h.round
+	w.heads = []c36HeadOpt{h}
+	if e.inFlight != nil && e.inFlight.kind == "finalise" {
+		w.heads = append(w.heads, c36HeadOpt{block: e.inFlight.block, round: e.inFlight.round, setID: e.inFlight.setID,
+			why: "the interrupted finalisation"})
+	}
+	return w
+}
+
+// c36Start restarts a node state service from db the way dot/node does
+// (NewService + SetupBase + Start; here the database is handed over directly).
+func (s *c36Scenario) start(db database.Database) (svc *Service, msg string) {
 	defer func() {
 		if r := recover(); r != nil {
-			msg = fmt.Sprintf("restart panicked: %v", r)
+			svc, msg = nil, fmt.Sprintf("Service.Start panicked: %v", r)
 		}
 	}()
-	e := s.expectAt(i)
-	svc := &Service{db: db, isMemDB: true, Telemetry: c36Telemetry{}, genesisBABEConfig: s.cfg,
+	svc = &Service{db: db, isMemDB: true, Telemetry: c36Telemetry{}, genesisBABEConfig: s.cfg,
 		closeCh: make(chan interface{})}
 	svc.Base = NewBaseState(db)
 	if err := svc.Start(); err != nil {
-		return fmt.Sprintf("Service.Start failed: %v", err)
+		return nil, fmt.Sprintf("Service.Start failed: %v", err)
 	}
 	if svc.Block == nil || svc.Storage == nil || svc.Grandpa == nil || svc.Epoch == nil {
-		return "Service.Start left a nil sub-state"
+		return nil, "Service.Start left a nil sub-state"
 	}
+	return svc, ""
+}
 
+func (s *c36Scenario) sameBody(got *types.Body, blk *c36Blk) bool {
+	if len(*got) != len(blk.body) {
+		return false
+	}
+	for k := range blk.body {
+		if !bytes.Equal((*got)[k], blk.body[k]) {
+			return false
+		}
+	}
+	return true
+}
+
+// judge inspects a freshly restarted service. It returns what it saw and "" or the violation.
+func (s *c36Scenario) judge(svc *Service, w c36Want) (seen c36Seen, msg string) {
+	defer func() {
+		if r := recover(); r != nil {
+			msg = fmt.Sprintf("reading the restarted state panicked: %v", r)
+		}
+	}()
 	// --- finalised head
 	round, setID, err := svc.Block.GetHighestRoundAndSetID()
 	if err != nil {
-		return fmt.Sprintf("GetHighestRoundAndSetID: %v", err)
+		return seen, fmt.Sprintf("GetHighestRoundAndSetID: %v", err)
 	}
+	seen.round, seen.setID = round, setID
 	headHash, err := svc.Block.GetFinalisedHash(round, setID)
 	if err != nil {
-		return fmt.Sprintf("GetFinalisedHash(%d,%d): %v", round, setID, err)
+		return seen, fmt.Sprintf("GetFinalisedHash(%d,%d): %v", round, setID, err)
 	}
-	var wantRound, wantSet uint64
-	wantBlock := 0
-	if e.lastFinal != nil {
-		wantRound, wantSet, wantBlock = e.lastFinal.round, e.lastFinal.setID, e.lastFinal.block
-	}
-	if !c36After(setID, round, wantSet, wantRound) {
-		return fmt.Sprintf("finalised (round %d, set %d) is older than (round %d, set %d) of the last complete finalisation",
-			round, setID, wantRound, wantSet)
+	if !c36After(setID, round, w.minSet, w.minRound) {
+		return seen, fmt.Sprintf("finalised (round %d, set %d) is older than (round %d, set %d) reached before",
+			round, setID, w.minRound, w.minSet)
 	}
 	hb := -1
 	for k := range s.blocks {
@@ -552,104 +617,267 @@ func (s *c36Scenario) restartAndJudge(db database.Database, i int) (msg string) 
 		}
 	}
 	if hb < 0 {
-		return fmt.Sprintf("finalised head %s is not a block of the scenario", headHash)
+		return seen, fmt.Sprintf("finalised head %s is not a block of the scenario", headHash)
 	}
-	switch {
-	case round == wantRound && setID == wantSet:
-		if hb != wantBlock {
-			return fmt.Sprintf("finalised head of (round %d, set %d) is b%d, it was b%d before the crash", round, setID, hb, wantBlock)
+	seen.head = hb
+	okHead := false
+	var allowed []string
+	for _, h := range w.heads {
+		if h.block == hb && (h.anyRound || (h.round == round && h.setID == setID)) {
+			okHead = true
 		}
-	case e.inFlight != nil && e.inFlight.kind == "finalise" && round == e.inFlight.round && setID == e.inFlight.setID:
-		if hb != e.inFlight.block {
-			return fmt.Sprintf("finalised head of (round %d, set %d) is b%d, the interrupted finalisation was for b%d", round, setID, hb, e.inFlight.block)
+		if h.anyRound {
+			allowed = append(allowed, fmt.Sprintf("b%d = %s", h.block, h.why))
+		} else {
+			allowed = append(allowed, fmt.Sprintf("b%d at (round %d, set %d) = %s", h.block, h.round, h.setID, h.why))
 		}
-	default:
-		return fmt.Sprintf("finalised (round %d, set %d) was never written by the scenario up to this point", round, setID)
 	}
-	blk := s.blocks[hb]
+	if !okHead {
+		return seen, fmt.Sprintf("finalised head is b%d at (round %d, set %d); the model allows only: %s",
+			hb, round, setID, strings.Join(allowed, "; "))
+	}
+	blk := &s.blocks[hb]
 	hdr, err := svc.Block.GetHeader(headHash)
 	if err != nil {
-		return fmt.Sprintf("header of the finalised head b%d unreadable: %v", hb, err)
+		return seen, fmt.Sprintf("header of the finalised head b%d unreadable: %v", hb, err)
 	}
 	if hdr.Hash() != headHash || hdr.StateRoot != blk.header.StateRoot || hdr.Number != blk.number {
-		return fmt.Sprintf("header of the finalised head b%d differs from the imported one", hb)
+		return seen, fmt.Sprintf("header of the finalised head b%d differs from the imported one", hb)
 	}
 	hdr2, err := svc.Block.GetHighestFinalisedHeader()
 	if err != nil || hdr2.Hash() != headHash {
-		return fmt.Sprintf("GetHighestFinalisedHeader: %v", err)
+		return seen, fmt.Sprintf("GetHighestFinalisedHeader: %v", err)
 	}
 	body, err := svc.Block.GetBlockBody(headHash)
 	if err != nil {
-		return fmt.Sprintf("body of the finalised head b%d unreadable: %v", hb, err)
+		return seen, fmt.Sprintf("body of the finalised head b%d unreadable: %v", hb, err)
 	}
-	if len(*body) != len(blk.body) {
-		return fmt.Sprintf("body of the finalised head b%d has %d extrinsics, imported %d", hb, len(*body), len(blk.body))
-	}
-	for k := range blk.body {
-		if !bytes.Equal((*body)[k], blk.body[k]) {
-			return fmt.Sprintf("body of the finalised head b%d differs at extrinsic %d", hb, k)
-		}
+	if !s.sameBody(body, blk) {
+		return seen, fmt.Sprintf("body of the finalised head b%d differs from the imported one", hb)
 	}
 	if _, err = svc.Block.GetBlockByHash(headHash); err != nil {
-		return fmt.Sprintf("GetBlockByHash(finalised head b%d): %v", hb, err)
+		return seen, fmt.Sprintf("GetBlockByHash(finalised head b%d): %v", hb, err)
 	}
 	if best := svc.Block.BestBlockHash(); best != headHash {
-		return fmt.Sprintf("best block after restart is %s, not the finalised head", best)
+		return seen, fmt.Sprintf("best block after restart is %s, not the finalised head", best)
+	}
+	// --- the finalised chain below the head: every block was written (header, body, number->hash) before the
+	// finalisation that covers it moved the finalised pointers
+	for k := blk.parent; k >= 0; k = s.blocks[k].parent {
+		anc := &s.blocks[k]
+		if _, err := svc.Block.GetHeader(anc.hash); err != nil {
+			return seen, fmt.Sprintf("header of b%d (#%d, on the finalised chain below the head b%d) unreadable: %v", k, anc.number, hb, err)
+		}
+		ab, err := svc.Block.GetBlockBody(anc.hash)
+		if err != nil {
+			return seen, fmt.Sprintf("body of b%d (#%d, on the finalised chain below the head b%d) unreadable: %v", k, anc.number, hb, err)
+		}
+		if !s.sameBody(ab, anc) {
+			return seen, fmt.Sprintf("body of b%d (on the finalised chain) differs from the imported one", k)
+		}
+	}
+	for k := hb; k >= 0; k = s.blocks[k].parent {
+		anc := &s.blocks[k]
+		raw, err := svc.Block.db.Get(headerHashKey(uint64(anc.number)))
+		if err != nil {
+			return seen, fmt.Sprintf("number->hash entry of #%d (b%d, finalised chain of the head b%d) unreadable: %v", anc.number, k, hb, err)
+		}
+		if !bytes.Equal(raw, anc.hash[:]) {
+			return seen, fmt.Sprintf("number->hash entry of #%d is %x, the finalised chain has b%d there", anc.number, raw, k)
+		}
+		if k != hb {
+			if got, err := svc.Block.GetHashByNumber(anc.number); err != nil || got != anc.hash {
+				return seen, fmt.Sprintf("GetHashByNumber(%d) = %s, %v; the finalised chain has b%d there", anc.number, got, err, k)
+			}
+		}
 	}
 	// --- state of the finalised head
 	tr, err := svc.Storage.LoadFromDB(hdr.StateRoot)
 	if err != nil {
-		return fmt.Sprintf("state of the finalised head b%d not loadable: %v", hb, err)
+		return seen, fmt.Sprintf("state of the finalised head b%d not loadable: %v", hb, err)
 	}
 	gotRoot, err := tr.Hash()
 	if err != nil || gotRoot != hdr.StateRoot {
-		return fmt.Sprintf("state of the finalised head b%d has root %s, header says %s (%v)", hb, gotRoot, hdr.StateRoot, err)
+		return seen, fmt.Sprintf("state of the finalised head b%d has root %s, header says %s (%v)", hb, gotRoot, hdr.StateRoot, err)
 	}
 	entries := tr.Entries()
 	if len(entries) != len(blk.state) {
-		return fmt.Sprintf("state of the finalised head b%d has %d entries, model %d", hb, len(entries), len(blk.state))
+		return seen, fmt.Sprintf("state of the finalised head b%d has %d entries, model %d", hb, len(entries), len(blk.state))
 	}
 	for k, v := range blk.state {
 		if got, ok := entries[k]; !ok || !bytes.Equal(got, v) {
-			return fmt.Sprintf("state of the finalised head b%d: key %x = %x, model %x", hb, k, got, v)
+			return seen, fmt.Sprintf("state of the finalised head b%d: key %x = %x, model %x", hb, k, got, v)
 		}
 		got, err := svc.Storage.GetStorage(&hdr.StateRoot, []byte(k))
 		if err != nil || !bytes.Equal(got, v) {
-			return fmt.Sprintf("GetStorage(root of b%d, %x) = %x, %v; model %x", hb, k, got, err, v)
+			return seen, fmt.Sprintf("GetStorage(root of b%d, %x) = %x, %v; model %x", hb, k, got, err, v)
 		}
 	}
 	// what lib/grandpa.NewService reads at start
 	if _, err = svc.Block.GetFinalisedHeader(0, 0); err != nil {
-		return fmt.Sprintf("GetFinalisedHeader(0,0): %v", err)
+		return seen, fmt.Sprintf("GetFinalisedHeader(0,0): %v", err)
 	}
 	if _, err = svc.Grandpa.GetLatestRound(); err != nil {
-		return fmt.Sprintf("GetLatestRound: %v", err)
+		return seen, fmt.Sprintf("GetLatestRound: %v", err)
 	}
 	if _, err = svc.Epoch.GetCurrentEpoch(); err != nil {
-		return fmt.Sprintf("GetCurrentEpoch: %v", err)
+		return seen, fmt.Sprintf("GetCurrentEpoch: %v", err)
 	}
 	// --- GRANDPA authority set
 	cur, err := svc.Grandpa.GetCurrentSetID()
 	if err != nil {
-		return fmt.Sprintf("GetCurrentSetID: %v", err)
+		return seen, fmt.Sprintf("GetCurrentSetID: %v", err)
 	}
-	if cur < e.minSetID {
-		return fmt.Sprintf("current set id %d is older than %d reached before the crash", cur, e.minSetID)
+	seen.cur = cur
+	if cur < w.minCur {
+		return seen, fmt.Sprintf("current set id %d is older than %d reached before", cur, w.minCur)
 	}
-	if cur > e.maxSetID {
-		return fmt.Sprintf("current set id %d was never reached by the scenario up to this point (max %d)", cur, e.maxSetID)
+	if cur > w.maxCur {
+		return seen, fmt.Sprintf("current set id %d was never reached by the scenario up to this point (max %d)", cur, w.maxCur)
 	}
 	auths, err := svc.Grandpa.GetAuthorities(cur)
 	if err != nil {
-		return fmt.Sprintf("current set id is %d but GetAuthorities(%d) fails: %v", cur, cur, err)
+		return seen, fmt.Sprintf("current set id is %d but GetAuthorities(%d) fails: %v", cur, cur, err)
 	}
-	if a, ok := s.authOf[cur]; ok && !c36SameVoters(auths, a) {
-		return fmt.Sprintf("authorities of the current set %d are %v, the set was enacted with the list of b%d", cur, auths, a)
+	if w.exactAuths {
+		if a, ok := s.authOf[cur]; ok && !c36SameVoters(auths, a) {
+			return seen, fmt.Sprintf("authorities of the current set %d are %v, the set was enacted with the list of b%d", cur, auths, a)
+		}
+	} else {
+		// sets enacted again after a restart: the list must still be one announced in the scenario (or genesis)
+		a := -2
+		if len(auths) > 0 {
+			a = int(auths[0].ID) - 1000
+		}
+		if a < -1 || a >= len(s.blocks) || (a >= 0 && s.blocks[a].change == 0) || !c36SameVoters(auths, a) {
+			return seen, fmt.Sprintf("authorities of the current set %d are %v: not a list announced in the scenario", cur, auths)
+		}
 	}
 	if _, err = svc.Grandpa.GetSetIDChange(cur); err != nil {
-		return fmt.Sprintf("current set id is %d but GetSetIDChange(%d) fails: %v", cur, cur, err)
+		return seen, fmt.Sprintf("current set id is %d but GetSetIDChange(%d) fails: %v", cur, cur, err)
 	}
-	return ""
+	return seen, ""
+}
+
+// c36Cont counts what the continuation after a restart had to redo.
+type c36Cont struct {
+	reimported, refinalised, handlers int
+}
+
+// continueOn carries the scenario on, on the service restarted after the crash at i, the way a node does:
+// everything that lived in memory only is gone (unfinalised blocks, pending authority changes), so
+//   - import: every block of the scenario that is not on the finalised chain of the restarted node and whose
+//     parent the restarted node knows (its finalised head, or a block imported again that still descends from
+//     the head) is imported again, in scenario order, exactly as before (StoreTrie of the parent state plus the
+//     block's changes, AddBlock, digests, ApplyForcedChanges). Blocks of forks the restarted node has abandoned
+//     are skipped (sync could not import them either). blocktree.ErrBlockExists and the digest / forced-change
+//     errors the node logs are tolerated.
+//   - finalise: finalisations that were complete before the crash are not repeated; the interrupted one and the
+//     later ones are issued again unless the block already is the finalised head, with the set id the restarted
+//     GrandpaState reports and the next round after the stored highest (round, set id), as lib/grandpa would.
+//   - handler: run again after every finalisation issued again, and for the interrupted handler if its block is
+//     the head. Errors ignored, as the handler does.
+//
+// Any other error is reported: a node that cannot import or finalise after a restart did not survive the crash.
+func (s *c36Scenario) continueOn(t c36Fataler, svc *Service, i int, seen c36Seen) (cnt c36Cont, msg string) {
+	defer func() {
+		if r := recover(); r != nil {
+			msg = fmt.Sprintf("continuing on the restarted service panicked: %v", r)
+		}
+	}()
+	cur := seen.head
+	imported := map[int]bool{}
+	for k := range s.ops {
+		op := &s.ops[k]
+		b := op.block
+		blk := &s.blocks[b]
+		switch op.kind {
+		case "import":
+			if s.isDescOrEq(b, cur) {
+				continue // on the finalised chain already
+			}
+			p := blk.parent
+			if !s.isDescOrEq(cur, p) || !(p == cur || imported[p]) {
+				continue // fork abandoned by the restarted node
+			}
+			ts, err := svc.Storage.TrieState(&s.blocks[p].header.StateRoot)
+			if err != nil {
+				return cnt, fmt.Sprintf("after the restart the state of b%d (parent of b%d, to be imported again) is not loadable: %v", p, b, err)
+			}
+			for _, c := range blk.puts {
+				if c.del {
+					err = ts.Delete([]byte(c.k))
+				} else {
+					err = ts.Put([]byte(c.k), c.v)
+				}
+				if err != nil {
+					return cnt, fmt.Sprintf("after the restart: trie state update for b%d: %v", b, err)
+				}
+			}
+			if root, err := ts.Trie().Hash(); err != nil || root != blk.header.StateRoot {
+				return cnt, fmt.Sprintf("after the restart the state of b%d, rebuilt on the stored state of b%d, has root %s, not %s (%v)",
+					b, p, root, blk.header.StateRoot, err)
+			}
+			if err = svc.Storage.StoreTrie(ts, blk.header); err != nil {
+				return cnt, fmt.Sprintf("after the restart: StoreTrie(b%d): %v", b, err)
+			}
+			err = svc.Block.AddBlock(&types.Block{Header: *blk.header, Body: blk.body})
+			if err != nil && !errors.Is(err, blocktree.ErrBlockExists) {
+				return cnt, fmt.Sprintf("after the restart: AddBlock(b%d): %v", b, err)
+			}
+			_, _ = c36HandleDigests(t, svc, blk.header)
+			imported[b] = true
+			cnt.reimported++
+		case "finalise":
+			if op.end <= i || s.isDescOrEq(b, cur) {
+				continue // complete before the crash, or its pointers were already written
+			}
+			if !imported[b] {
+				t.Fatalf("harness: continuation cannot finalise b%d again: it was not imported again (head b%d)", b, cur)
+			}
+			setID, err := svc.Grandpa.GetCurrentSetID()
+			if err != nil {
+				return cnt, fmt.Sprintf("after the restart: GetCurrentSetID: %v", err)
+			}
+			hr, hs, err := svc.Block.GetHighestRoundAndSetID()
+			if err != nil {
+				return cnt, fmt.Sprintf("after the restart: GetHighestRoundAndSetID: %v", err)
+			}
+			round := uint64(1)
+			if setID == hs {
+				round = hr + 1
+			}
+			if err = svc.Block.SetJustification(blk.hash, []byte(fmt.Sprintf("justification-again-%d-%d", round, setID))); err != nil {
+				return cnt, fmt.Sprintf("after the restart: SetJustification(b%d): %v", b, err)
+			}
+			if err = svc.Grandpa.SetPrevotes(round, setID, []types.GrandpaSignedVote{}); err != nil {
+				return cnt, fmt.Sprintf("after the restart: SetPrevotes: %v", err)
+			}
+			if err = svc.Grandpa.SetPrecommits(round, setID, []types.GrandpaSignedVote{}); err != nil {
+				return cnt, fmt.Sprintf("after the restart: SetPrecommits: %v", err)
+			}
+			if err = svc.Block.SetFinalisedHash(blk.hash, round, setID); err != nil {
+				return cnt, fmt.Sprintf("after the restart: SetFinalisedHash(b%d, round %d, set %d): %v", b, round, setID, err)
+			}
+			if err = svc.Grandpa.SetLatestRound(round); err != nil {
+				return cnt, fmt.Sprintf("after the restart: SetLatestRound: %v", err)
+			}
+			cur = b
+			cnt.refinalised++
+		case "handler":
+			if op.end <= i || b != cur {
+				continue
+			}
+			_ = svc.Epoch.FinalizeBABENextEpochData(blk.header)
+			_ = svc.Epoch.FinalizeBABENextConfigData(blk.header)
+			_ = svc.Grandpa.ApplyScheduledChanges(blk.header)
+			cnt.handlers++
+		}
+	}
+	if cur != s.head {
+		t.Fatalf("harness: continuation ended with head b%d, the scenario ends with b%d", cur, s.head)
+	}
+	return cnt, ""
 }
 
 func (s *c36Scenario) describe() string {
@@ -660,17 +888,19 @@ func (s *c36Scenario) describe() string {
 	return strings.Join(parts, " ")
 }
 
+// continueAt says for which crash points the scenario is carried on after the restart and restarted a second
+// time: every crash point strictly inside an operation, and every c36BoundaryStride-th boundary crash point.
+const c36BoundaryStride = 1
+
+func (s *c36Scenario) continueAt(i int, e c36Expect) bool {
+	return e.inFlight != nil || (i-s.initEnd)%c36BoundaryStride == 0
+}
+
 // enumerate restarts from EVERY prefix of the post-initialisation write log.
 func (s *c36Scenario) enumerate(t c36Fataler, record bool) (total, inside int) {
 	descr := s.describe()
 	n := len(s.db.log)
 	for i := s.initEnd; i <= n; i++ {
-		db, err := c36Replay(s.db.log[:i])
-		if err != nil {
-			t.Fatalf("harness: replay: %v", err)
-		}
-		msg := s.restartAndJudge(db, i)
-		_ = db.Close()
 		e := s.expectAt(i)
 		where := "at an operation boundary"
 		if e.inFlight != nil {
@@ -680,22 +910,63 @@ func (s *c36Scenario) enumerate(t c36Fataler, record bool) (total, inside int) {
 		if i > 0 {
 			last = s.db.log[i-1].String()
 		}
-		if msg != "" {
-			t.Fatalf("crash after write unit %d of %d (%s), %s: %s\nscenario: %s", i, n, last, where, msg, descr)
+		fail := func(phase, msg string) {
+			t.Fatalf("crash after write unit %d of %d (%s), %s: %s%s\nscenario: %s", i, n, last, where, phase, msg, descr)
 		}
-		total++
-		if record {
-			labels := []string{"prefix"}
-			if e.inFlight != nil {
-				inside++
-				labels = append(labels, "prefix-inside-op", "prefix-inside-"+e.inFlight.kind)
-				if s.db.log[i-1].batch {
-					labels = append(labels, "prefix-ends-with-batch")
-				}
+		db, err := c36Replay(s.db.log[:i])
+		if err != nil {
+			t.Fatalf("harness: replay: %v", err)
+		}
+		labels := []string{"prefix"}
+		svc, msg := s.start(db)
+		var seen c36Seen
+		if msg == "" {
+			seen, msg = s.judge(svc, s.wantAfterCrash(i))
+		}
+		if msg != "" {
+			_ = db.Close()
+			fail("", msg)
+		}
+		if s.continueAt(i, e) {
+			// second phase: carry on as a node would, restart again, judge again
+			cnt, msg := s.continueOn(t, svc, i, seen)
+			if msg != "" {
+				_ = db.Close()
+				fail("", msg)
 			}
-			kit.Case(fmt.Sprintf("crash after unit %d/%d %s, %s; scenario: %s", i, n, last, where, descr), e.inFlight != nil, labels...)
-		} else if e.inFlight != nil {
+			svc2, msg := s.start(db)
+			if msg == "" {
+				want := c36Want{heads: []c36HeadOpt{{block: s.head, anyRound: true, why: "the last finalisation of the scenario"}},
+					minSet: seen.setID, minRound: seen.round, minCur: seen.cur, maxCur: ^uint64(0)}
+				_, msg = s.judge(svc2, want)
+			}
+			if msg != "" {
+				_ = db.Close()
+				fail(fmt.Sprintf("restart ok (head b%d); scenario continued on the restarted node (%d blocks imported again, %d finalisations issued again); SECOND restart: ",
+					seen.head, cnt.reimported, cnt.refinalised), msg)
+			}
+			labels = append(labels, "prefix-continued+second-restart")
+			if cnt.refinalised > 0 {
+				labels = append(labels, "continued:finalisation-issued-again")
+			}
+			if cnt.reimported > 0 {
+				labels = append(labels, "continued:blocks-imported-again")
+			}
+			if e.inFlight != nil && e.inFlight.kind == "finalise" && seen.head != e.inFlight.block {
+				labels = append(labels, "continued:interrupted-finalisation-repeated")
+			}
+		}
+		_ = db.Close()
+		total++
+		if e.inFlight != nil {
 			inside++
+			labels = append(labels, "prefix-inside-op", "prefix-inside-"+e.inFlight.kind)
+			if s.db.log[i-1].batch {
+				labels = append(labels, "prefix-ends-with-batch")
+			}
+		}
+		if record {
+			kit.Case(fmt.Sprintf("crash after unit %d/%d %s, %s; scenario: %s", i, n, last, where, descr), e.inFlight != nil, labels...)
 		}
 	}
 	return total, inside
